@@ -378,8 +378,10 @@ def compare_dump(m, d, resolve_names=True, ext=None):
         bad.append("rowcount %d != model %d" % (d["nrows"], m.nrows))
     if bad:
         return bad
+    # an accessor asked for a zero-length array may refuse: there is nothing to observe then
+    zero_ok = {"obj_rc": m.ncols, "bounds_rc": m.ncols, "colnames_rc": m.ncols, "rhs_rc": m.nrows, "senses_rc": m.nrows, "rownames_rc": m.nrows}
     for k in ("objsense_rc", "obj_rc", "rhs_rc", "senses_rc", "bounds_rc", "colnames_rc", "rownames_rc"):
-        if d.get(k) != 0:
+        if d.get(k) != 0 and zero_ok.get(k, 1) != 0:
             bad.append("%s=%r" % (k, d.get(k)))
     if bad:
         return bad
